@@ -7,6 +7,7 @@ import Proofs.Fuel
 import Proofs.RoundTrip
 import Proofs.Kernels
 import Proofs.KernelRealDec
+import Proofs.KernelLen
 
 namespace Asn1.C01
 
@@ -72,6 +73,16 @@ theorem source_oid_roundtrip (arcs : List Nat) (c : Bytes) (h : oidToContent arc
 theorem source_integer_roundtrip (z : Int) :
     ∃ c : Bytes, GenK.toBytes z true 0 = .ok (Kernels.bytesInts c) ∧ intFromBytes c = z :=
   ⟨intToBytes z, Kernels.toBytes_kernel z, intFromBytes_intToBytes z⟩
+
+/-- the same with the decoder side at the source level too: the octets the translated `to_bytes` writes, the
+    translated body of `IntegerPayloadDecoder.valueDecoder` (which calls the translated `from_bytes`) reads back as
+    the integer - every integer -/
+theorem source_integer_roundtrip_both (z : Int) :
+    ∃ c : Py.Tup, GenK.toBytes z true 0 = .ok c ∧ GenK.intDecode c = .ok z :=
+  ⟨Kernels.bytesInts (intToBytes z), Kernels.toBytes_kernel z, by
+    rw [Kernels.intDecode_kernel, intFromBytes_intToBytes]⟩
+
+example : GenK.intDecode [255, 127] = .ok (-129) := by rfl
 
 /-- **binary REAL contents, at the source level**: what the translated body of `RealEncoder.encodeValue` writes for a
     non-zero mantissa and any exponent (encoding base 2), the translated binary branch of
